@@ -18,7 +18,8 @@ ENTRIES = ["copy_randombytes17", "copy_randombytes37", "randombytes_buf21", "sta
            "signing_keypair_gen", "signing_keypair_gen_with_defaults", "kdf_gen", "kdf_gen_with_defaults", "dryocbox_seal",
            "dryocstream_init_push", "pwhash_hash", "secretbox_nonce_gen", "secretbox_key_gen", "box_nonce_gen", "auth_key_gen",
            "onetimeauth_key_gen", "generichash_key_gen", "stream_key_gen", "kx_keypair_gen"]
-NIGHTLY_ENTRIES = ["heap_gen32", "locked_gen32", "locked_keypair_gen"]
+NIGHTLY_ENTRIES = ["heap_gen32", "locked_gen32", "lockedro_gen32", "locked_trait_gen32", "heapbytes_gen_locked33", "locked_kdf_gen",
+                   "locked_keypair_gen", "lockedro_keypair_gen", "sign_locked_keypair_gen", "sign_lockedro_keypair_gen", "locked_secretbox_key_gen"]
 SLOW = {"pwhash_str": 8, "pwhash_hash": 8, "pwhash_hash_salt32": 8, "pwhash_hash_salt21": 8, "pwhash_hash_salt64": 8}   # divide the call count (Argon2 per call)
 
 
@@ -52,8 +53,12 @@ def run(tier, seed):
         # degenerate sources expose constants hidden behind the draw: all-zero and all-ff entropy
         cases.append(Case("randh %s %s" % (e, hx(b"\x00" * 96)), cls="hooked/" + e))
         cases.append(Case("randh %s %s" % (e, hx(bytes(range(1, 97)))), cls="hooked/" + e))
-    lines = assign_ids(cases)
-    impl = run_engine(runner, lines)
+    # the generators that only exist with the nightly feature (heap / locked containers): OS-generator statistics
+    ncases = [Case("rand %s %d" % (e, max(40, n // 4)), cls="os-rng/" + e, meta={"entry": e, "nightly": True}) for e in NIGHTLY_ENTRIES]
+    lines = assign_ids(cases + ncases)
+    impl = run_engine(runner, lines[:len(cases)])
+    impl.update(run_engine(build_runner("nightly"), lines[len(cases):]))
+    cases = cases + ncases
     model = run_engine(driver_path(), lines) if lean["build_ok"] else {}
     for c in cases:
         res.evaluations += 1
